@@ -293,7 +293,8 @@ FromJ(T, j) ==
             IF \E i \in 1..Len(s) : HexVal(s[i]) = 16 THEN Err                           \* not base16 text
             ELSE IF Len(s) = 2 * NBytes(n) /\ (\A i \in 1..Len(s) : s[i] < 97) /\ (\A i \in (n + 1)..(4 * Len(s)) : HexBit(s, i) = 0)
                  THEN Ok(<<"bits", [i \in 1..n |-> HexBit(s, i)]>>)
-                 ELSE DC                                                                \* other lengths / lower case / set padding bits: not addressed
+                 ELSE IF Len(s) < 2 * NBytes(n) THEN Err                                \* fewer bytes than the bitset has bits for: the shape does not fit
+                 ELSE DC                                                                \* longer text / lower case / set padding bits: not addressed
          ELSE IF IsIntJ(j) THEN DC                                                       \* [BI bitset] "can decode from integers": bit order not given
          ELSE Err
     [] T[1] = "secs" ->
